@@ -134,7 +134,7 @@ class LoopSpec:
 
     def __init__(self, invariant: Callable = None, modifies: List[str] = None, havoc: Callable = None,
                  unroll: bool = False, name: str = "", decreases: Callable = None, skip: List[str] = None,
-                 on_exit: Callable = None):
+                 on_exit: Callable = None, on_break: Callable = None):
         self.invariant = invariant  # invariant(interp, env, it) -> list[(name, z3 bool)]
         self.modifies = modifies    # extra names to havoc (beyond syntactically assigned locals)
         self.havoc = havoc          # havoc(interp, env, it): custom havoc of heap/ghost state
@@ -143,6 +143,7 @@ class LoopSpec:
         self.decreases = decreases
         self.skip = skip or []      # names the custom havoc takes care of
         self.on_exit = on_exit      # on_exit(interp, env, it): facts that hold when the loop completed (rule ALL-VISITED)
+        self.on_break = on_break    # on_break(interp, env, it): the body left the loop early (break) in the arbitrary iteration
 
 
 class Registry:
@@ -2007,6 +2008,8 @@ class Interp:
         try:
             self.exec_block(node.body, env)
         except BreakSig:
+            if getattr(spec, "on_break", None):
+                spec.on_break(self, env, it)
             return
         except ContinueSig:
             pass
